@@ -23,15 +23,16 @@ import util.UniqueString;
 public final class QKernel {
     private QKernel() {}
 
-    private static final ConcurrentHashMap<UniqueString, BigInteger[]> CACHE = new ConcurrentHashMap<>();
+    private static final ConcurrentHashMap<String, BigInteger[]> CACHE = new ConcurrentHashMap<>();
     private static final int CACHE_MAX = 2_000_000;
 
     private static BigInteger[] parse(final Value v) {
         final StringValue sv = (StringValue) v;
         final UniqueString us = sv.getVal();
-        BigInteger[] r = CACHE.get(us);
+        final String key = us.toString();
+        BigInteger[] r = CACHE.get(key);
         if (r != null) return r;
-        final String s = us.toString();
+        final String s = key;
         final int slash = s.indexOf('/');
         if (slash < 0) {
             r = new BigInteger[] { new BigInteger(s, 16), BigInteger.ONE };
@@ -40,7 +41,7 @@ public final class QKernel {
             if (r[1].signum() <= 0) throw new IllegalArgumentException("Q: bad denominator in " + s);
         }
         if (CACHE.size() > CACHE_MAX) CACHE.clear();
-        CACHE.put(us, r);
+        CACHE.put(key, r);
         return r;
     }
 
@@ -61,7 +62,7 @@ public final class QKernel {
         final String s = d.equals(BigInteger.ONE) ? n.toString(16) : n.toString(16) + "/" + d.toString(16);
         final StringValue out = new StringValue(s);
         if (CACHE.size() > CACHE_MAX) CACHE.clear();
-        CACHE.put(out.getVal(), new BigInteger[] { n, d });
+        CACHE.put(s, new BigInteger[] { n, d });
         return out;
     }
 
